@@ -61,7 +61,7 @@ type OConfig struct {
 	PDup       int    `json:"p_dup"`   // per mille
 	PCrash     int    `json:"p_crash"` // per mille per step
 	PPartition int    `json:"p_partition"`
-	QuietSteps int    `json:"quiet_steps"` // trailing steps without faults (progress diagnostic)
+	QuietSteps int    `json:"quiet_steps"`         // trailing steps without faults (progress diagnostic)
 	AckCrash   bool   `json:"ack_crash,omitempty"` // biased fault schedule "a follower acknowledges, the leader commits, the follower crashes before it learns the commit index, the leader is cut off" (adversary.go)
 	// sync mode
 	Begin, End uint64
@@ -287,7 +287,9 @@ type oblock struct {
 	extra  string // Block.Extra as handed to the executor (the executor reads it: a non-empty value makes it skip proof verification)
 }
 
-func (b *oblock) sig() string { return fmt.Sprintf("%d|%d|%v|extra=%q", b.height, b.ts, b.txs, b.extra) }
+func (b *oblock) sig() string {
+	return fmt.Sprintf("%d|%d|%v|extra=%q", b.height, b.ts, b.txs, b.extra)
+}
 func (b *oblock) toBlock() *pb.Block {
 	blk := &pb.Block{BlockHeader: &pb.BlockHeader{Number: b.height, Timestamp: b.ts, Version: []byte("1.0.0")}, Transactions: &pb.Transactions{}}
 	for i, h := range b.txs {
@@ -327,6 +329,10 @@ type onode struct {
 	snapAtStart      uint64           // raft: index of the snapshot the log of this incarnation starts from
 	recordedAtStart  uint64           // raft: applied index recorded on disk when this incarnation started
 	replayChecked    bool
+	// raft: what the node's own bookkeeping said at the last quiescent point (see sampleLeaders)
+	pastHoldOff bool   // it leads and the hold-off that follows its election is over
+	lastSeq     uint64 // height its pool gave to the batch it cut last
+	seqReset    bool   // past the hold-off, that height went down: the pool's batch sequence was set back
 }
 
 func (n *onode) nonceOf(addr string) uint64 {
@@ -437,6 +443,18 @@ type cluster struct {
 	lastFaultStep   int
 	step            int
 	adv             *ackCrash
+	logEntries      map[[3]uint64]*logEntry // (leader, message term, index) -> batch the leader holds at that index during that term
+	leaderCommit    map[[2]uint64]uint64    // (leader, message term) -> highest commit index that leader announced in that term
+}
+
+// logEntry: a batch as a leader replicates it (read off its append messages)
+type logEntry struct {
+	entryTerm  uint64
+	height     uint64
+	sig        string // what the delivered block of that height must look like
+	ntx        int
+	seenStep   int  // driver step at which the entry was first seen in an append message
+	afterReset bool // its leader, past the hold-off, had set its batch sequence back before this entry was first seen
 }
 
 func (c *cluster) vio(oracle, discr, f string, a ...any) {
@@ -546,6 +564,7 @@ func (c *cluster) drain() {
 	c.net.mu.Unlock()
 	// canonical order: arrival order inside the outbox depends on goroutine scheduling
 	sort.SliceStable(out, func(i, j int) bool { return out[i].key < out[j].key })
+	c.sampleLeaders()
 	for _, m := range out {
 		c.observeProposals(m)
 		to := c.nodes[m.to-1]
@@ -577,6 +596,34 @@ func (c *cluster) drain() {
 	}
 }
 
+// sampleLeaders reads, at a quiescent point, what every raft node's own bookkeeping says about its leadership. A node
+// that has just been elected sets its pool's batch sequence back to the executed height on every Ready until its
+// in-flight entries are applied (the hold-off); once that is over, and for as long as it leads, nothing in the node
+// sets the sequence back again. A sequence that goes down past the hold-off therefore tells the two ways apart in
+// which a leader can come to propose two batches for one height (checkCommittedEntries).
+func (c *cluster) sampleLeaders() {
+	if c.cfg.Kind != "raft" {
+		return
+	}
+	for _, n := range c.nodes {
+		if !n.alive || n.ord == nil {
+			n.pastHoldOff, n.seqReset = false, false
+			continue
+		}
+		leader, holdOff, seq := etcdraft.VerifLeaderState(n.ord)
+		switch {
+		case !leader || holdOff:
+			n.pastHoldOff, n.seqReset = false, false
+		case !n.pastHoldOff:
+			n.pastHoldOff = true
+		case seq < n.lastSeq:
+			n.seqReset = true
+			c.res.Count("probe_batch_sequence_set_back_past_the_hold_off")
+		}
+		n.lastSeq = seq
+	}
+}
+
 // observeProposals reads the batches a leader proposes off its append messages (reach probe and diagnostics).
 func (c *cluster) observeProposals(m netMsg) {
 	rm := &raftproto.RaftMessage{}
@@ -584,8 +631,35 @@ func (c *cluster) observeProposals(m netMsg) {
 		return
 	}
 	msg := &raftpb.Message{}
-	if msg.Unmarshal(rm.Data) != nil || msg.Type != raftpb.MsgApp {
+	if msg.Unmarshal(rm.Data) != nil {
 		return
+	}
+	if msg.Type == raftpb.MsgApp || msg.Type == raftpb.MsgHeartbeat {
+		// the sender is the leader of msg.Term; Commit is its commit index (a heartbeat caps it at what the follower has)
+		if c.leaderCommit == nil {
+			c.leaderCommit, c.logEntries = map[[2]uint64]uint64{}, map[[3]uint64]*logEntry{}
+		}
+		k := [2]uint64{m.from, msg.Term}
+		if msg.Commit > c.leaderCommit[k] {
+			c.leaderCommit[k] = msg.Commit
+		}
+	}
+	if msg.Type != raftpb.MsgApp {
+		return
+	}
+	for _, e := range msg.Entries {
+		if e.Type == raftpb.EntryNormal && len(e.Data) > 0 {
+			rb := &raftproto.RequestBatch{}
+			if rb.Unmarshal(e.Data) == nil && rb.TxList != nil {
+				ob := &oblock{height: rb.Height, ts: rb.Timestamp}
+				for _, tx := range rb.TxList.Transactions {
+					ob.txs = append(ob.txs, tx.GetHash().String())
+				}
+				if _, seen := c.logEntries[[3]uint64{m.from, msg.Term, e.Index}]; !seen {
+					c.logEntries[[3]uint64{m.from, msg.Term, e.Index}] = &logEntry{entryTerm: e.Term, height: rb.Height, sig: ob.sig(), ntx: len(ob.txs), seenStep: c.step, afterReset: c.nodes[m.from-1].seqReset}
+				}
+			}
+		}
 	}
 	for _, e := range msg.Entries {
 		if e.Type != raftpb.EntryNormal || len(e.Data) == 0 {
@@ -1095,6 +1169,7 @@ func runCluster(cfg OConfig, seed uint64, res *sim.Result, tp *tape, base string
 		}
 		n.mu.Unlock()
 	}
+	c.checkCommittedEntries()
 	// per account nonces in the agreed chain are consecutive (C18 end to end)
 	// diagnostic only: bounded progress after the last fault
 	committedTxs := len(c.txHeight)
@@ -1274,5 +1349,51 @@ func (c *cluster) noteLateTx(data []byte) {
 			c.lateTx[h] = true
 			c.res.Count("fault_tx_broadcast_after_commit")
 		}
+	}
+}
+
+// checkCommittedEntries: "each proposed batch at most once ... no entry that was not executed is skipped". A batch
+// that a leader replicated at a log index at or below the commit index it announced in the same term is committed
+// for good; the nodes skip an entry only if its height has been executed already, so the block that was handed over
+// for that height must be that very batch - otherwise a committed batch was dropped without ever being executed.
+func (c *cluster) checkCommittedEntries() {
+	if len(c.res.Violations) > 0 {
+		return
+	}
+	type key = [3]uint64
+	var keys []key
+	for k := range c.logEntries {
+		keys = append(keys, k)
+	}
+	sort.Slice(keys, func(i, j int) bool {
+		if keys[i][2] != keys[j][2] {
+			return keys[i][2] < keys[j][2]
+		}
+		if keys[i][1] != keys[j][1] {
+			return keys[i][1] < keys[j][1]
+		}
+		return keys[i][0] < keys[j][0]
+	})
+	for _, k := range keys {
+		e := c.logEntries[k]
+		lt := [2]uint64{k[0], k[1]}
+		if k[2] > c.leaderCommit[lt] {
+			continue // not known to be committed
+		}
+		c.res.Count("probe_committed_batches_checked")
+		got, delivered := c.agreed[e.height]
+		if !delivered || got == e.sig {
+			continue
+		}
+		// the height was filled by another batch: which one came first in the log?
+		discr := "leader-in-the-hold-off-after-its-election"
+		if e.afterReset {
+			// the leader's own bookkeeping said the hold-off was over, and still its pool's batch sequence went back
+			// before it cut this batch: the hold-off (heights re-used until the in-flight entries are applied) cannot
+			// explain it
+			discr = "batch-sequence-set-back-past-the-hold-off"
+		}
+		c.vio("committed-batch-never-executed", discr, "leader n%d replicated in term %d at log index %d (commit index it announced: %d) a batch of %d transactions for height %d; the block handed over for that height is another batch, so this committed entry was skipped although it was never executed", k[0], k[1], k[2], c.leaderCommit[lt], e.ntx, e.height)
+		return
 	}
 }
